@@ -253,7 +253,8 @@ func (c *cluster) handleChanges(key watchKey, kvs []KV) {
 func (c *cluster) handleWatchEvents(ctx context.Context, key watchKey, events []*clientv3.Event) {
 	c.lock.RLock()
 	watcher, ok := c.watchers[key]
-	if !ok {
+	// a canceled watch must not touch the watcher of a later subscription of the same key
+	if !ok || ctx.Err() != nil {
 		c.lock.RUnlock()
 		return
 	}
